@@ -29,7 +29,7 @@ Staleness that is BY DESIGN and therefore NOT asserted here (it belongs to the g
   * An unpickled / copied tzfile carries its decoded state with it (tzfile.__reduce_ex__ = (cls, (None, filename),
     __dict__)): it reports the data of the ORIGINAL object, not of the file now — asserted that way (kinds pickle, copy).
 """
-import io, os, gc, ast, sys, copy, json, time, pickle, shutil, struct, hashlib, tarfile, tempfile, importlib, warnings
+import io, os, gc, ast, copy, json, pickle, shutil, struct, hashlib, tarfile, tempfile, importlib, warnings
 import zonelib as Z
 
 HERE = os.path.dirname(os.path.abspath(__file__))
@@ -53,7 +53,7 @@ KINDS = [
 ]
 REWRITES = [("overwrite", "same"), ("replace", "same"), ("overwrite", "later"), ("replace", "later")]
 MAX_RECORDED_PER_KIND = 8
-MAX_PROBES = 28
+MAX_PROBES = 16
 
 
 # ====================================================================== data
@@ -127,9 +127,9 @@ def _fixed_pairs():
 
 
 def pairs_for(ctx):
-    """[(name, [A, B] or [A, B, C])] — all members decode, consecutive members decode to DIFFERENT zones"""
+    """[(name, [A, B] or [A, B, C])] — well-formed TZif byte strings, consecutive members hold DIFFERENT data"""
     rng = ctx.subrng("c06-history")
-    n = ctx.budget(12, 64)
+    n = ctx.budget(12, 56)
     fixed = _fixed_pairs()
     zs = Z.system_zones()
     bylen = {}
@@ -175,27 +175,38 @@ def pairs_for(ctx):
             out.append(makers[i % len(makers)]()); i += 1
     good = []
     for name, datas in out:
-        refs = [_ref(x) for x in datas]
-        if any(r is None for r in refs):
-            ctx.count("history_pairs_skipped_undecodable"); continue
-        if any(refs[i]["dump"] == refs[i + 1]["dump"] for i in range(len(refs) - 1)):
-            ctx.count("history_pairs_skipped_same_decoded_zone"); continue
+        if any(data_signature(datas[i]) == data_signature(datas[i + 1]) for i in range(len(datas) - 1)):
+            ctx.count("history_sequences_skipped_same_data"); continue     # decided by the struct reader, not by dateutil
         good.append((name, datas))
     return good
+
+
+def data_signature(data):
+    """everything of the version-1 block that dateutil decodes, read with struct alone: instants, type indices, types
+    (offset, isdst, abbreviation), isstd / isgmt flags.  Two byte strings with different signatures are different zones."""
+    isgmtcnt, isstdcnt, leapcnt, timecnt, typecnt, charcnt = struct.unpack(">6l", data[20:44])
+    tl = Z.Timeline(data)
+    p = 44 + 5 * timecnt + 6 * typecnt + charcnt + 8 * leapcnt
+    return (tuple(tl.utc), tuple(tl.idx), tuple(tl.types), bytes(data[p:p + isstdcnt]), bytes(data[p + isstdcnt:p + isstdcnt + isgmtcnt]))
 
 
 # ====================================================================== what the data says
 
 _refs = {}
+_ref_errors = {}
 
 
 def _ref(data):
     """what a load of exactly these bytes reports (fresh BytesIO load, filename unrelated to any path used below)"""
     if data in _refs:
         return _refs[data]
-    z, dump = Z.impl_load(data)
-    if z is None:
+    from dateutil import tz
+    try:
+        z = tz.tzfile(io.BytesIO(data))          # no filename argument: nothing the references have in common
+        dump = Z.impl_dump(z)
+    except Exception as ex:
         _refs[data] = None
+        _ref_errors[data] = "%s: %s" % (type(ex).__name__, str(ex)[:160])
         return None
     try:
         tl = Z.Timeline(data)
@@ -621,14 +632,31 @@ def history(ctx):
     """HISTORY stream: every load path on a path / name / filename whose data changes between the loads"""
     pairs = pairs_for(ctx)
     rec = _Recorder(ctx)
-    t0 = time.time()
     with _Env() as env:
-        for name, datas in pairs:       # the reference of each byte string against the independent reader, once
+        # the references first: a fresh BytesIO load of each byte string against the independent struct reader, and
+        # fresh loads of different data must not report the same zone (the comparisons below lean on the references)
+        usable = []
+        for name, datas in pairs:
+            ok = True
             for x in datas:
                 r = _ref(x)
-                if not r["independent_ok"]:
+                ctx.case(("reference", _digest(x))); ctx.count("history:reference")
+                if r is None:
+                    ok = False
+                    ctx.violation("a well-formed TZif stream is rejected by a fresh BytesIO load",
+                                  {"kind": "reference", "a": Z.hexs(x), "b": Z.hexs(x), "step": "reference_load", "pair": name}, _ref_errors.get(x))
+                elif not r["independent_ok"]:
                     ctx.violation("a fresh BytesIO load disagrees with the independent struct reader of the same bytes",
-                                  {"kind": "reference", "a": Z.hexs(x), "b": Z.hexs(x), "step": "reference", "pair": name}, r["independent_note"])
+                                  {"kind": "reference", "a": Z.hexs(x), "b": Z.hexs(x), "step": "reference_vs_reader", "pair": name}, r["independent_note"])
+            if ok:
+                for a, b in zip(datas, datas[1:]):
+                    if _ref(a)["dump"] == _ref(b)["dump"]:
+                        ctx.violation("fresh BytesIO loads of DIFFERENT data report the same zone",
+                                      {"kind": "reference", "a": Z.hexs(a), "b": Z.hexs(b), "step": "reference_distinct", "pair": name}, _ref(a)["dump"][:300])
+                usable.append((name, datas))
+        pairs = usable
+        if not pairs:
+            raise RuntimeError("c06 history: no usable data sequence (the stream would pass vacuously)")
         n = 0
         for i, (name, datas) in enumerate(pairs):
             ctx.count("history_sequences:%s" % ("same_length" if _same_len(datas) else "different_length"))
@@ -645,7 +673,6 @@ def history(ctx):
                     _run(rec, env, _scenario(kind, name, datas, rewrite, mtime))
                     n += 1
         ctx.count("history_scenarios", n)
-    ctx.hist["history_seconds"] = round(time.time() - t0, 2)
     return rec.failures
 
 
@@ -654,9 +681,12 @@ def replay_history(case):
     if "site" in case:
         return replay_audit(case)
     if case.get("kind") == "reference":
-        r = _ref(bytes.fromhex(case["a"]))
-        print("reference load vs independent reader:", "ok" if r and r["independent_ok"] else (r or {}).get("independent_note"))
-        return bool(r and r["independent_ok"])
+        a, b = bytes.fromhex(case["a"]), bytes.fromhex(case["b"])
+        ra, rb = _ref(a), _ref(b)
+        ok = bool(ra and rb and ra["independent_ok"] and rb["independent_ok"] and (a == b or ra["dump"] != rb["dump"]))
+        print("history replay (reference): fresh BytesIO load %s" % ("agrees with the bytes" if ok else "still differs: %r" % (
+            _ref_errors.get(a) or (ra or {}).get("independent_note") or "same zone for different data")))
+        return ok
     datas = [bytes.fromhex(case[k]) for k in ("a", "b", "c") if case.get(k) and case[k] != "."]
     col = _Collector()
     rec = _Recorder(col)
@@ -682,10 +712,10 @@ MUTABLE_CTORS = {"dict", "list", "set", "bytearray", "OrderedDict", "defaultdict
                  "WeakValueDictionary", "WeakKeyDictionary", "WeakSet"}
 MUTATORS = {"append", "extend", "insert", "update", "setdefault", "pop", "popitem", "clear", "add", "remove", "discard",
             "move_to_end", "appendleft", "extendleft", "__setitem__", "__delitem__", "sort", "reverse"}
+TZIF_NAMES = {"tzfile", "_tzfile", "_ttinfo", "ZoneInfoFile"}
 CACHE_WORDS = ("cache", "memo", "registry", "instances", "lru")
 BENIGN_DECORATORS = {"staticmethod", "classmethod", "property"}
 CONSTRUCTOR_HOOKS = {"__new__", "__init_subclass__", "__class_getitem__", "__set_name__"}
-KIND_ALWAYS_LISTED = "needs an allow-list entry"
 
 
 def _src(node, n=160):
@@ -865,14 +895,22 @@ def audit_sites(repo=None):
             for sub in ast.walk(cnode):
                 audited_nodes.add(id(sub))
 
-        def visit_other(node, qual):
+        def visit_other(node, qual, relevant=None):
             for sub in _nested_defs(node):
                 if id(sub) in audited_nodes:
                     continue
                 q = (qual + "." if qual else "") + sub.name
-                for d in sub.decorator_list:
+                for d in sub.decorator_list:            # a caching decorator anywhere in the file is looked at
                     if _has_cache_word(_src(d)):
                         add(q, "caching_decorator", d, None, True, "@" + _src(d))
+                # cache-named state is looked at in the top-level functions / classes that mention one of the TZif classes
+                # (the gettz factory, the zoneinfo accessors); per-instance caches of unrelated zones (tzical) are not C06's
+                rel_here = relevant if relevant is not None else any(
+                    isinstance(x, ast.Name) and x.id in TZIF_NAMES or isinstance(x, ast.Attribute) and x.attr in TZIF_NAMES
+                    for x in ast.walk(sub))
+                if not rel_here:
+                    visit_other(sub, q, False)
+                    continue
                 own = _own_nodes(sub)
                 if isinstance(sub, ast.ClassDef):
                     for n in sub.body:
@@ -897,7 +935,7 @@ def audit_sites(repo=None):
                             term = b.attr if isinstance(b, ast.Attribute) else (b.id if isinstance(b, ast.Name) else "")
                             if _has_cache_word(term):
                                 add(q, "cache_named_mutation", n, None, True)
-                visit_other(sub, q)
+                visit_other(sub, q, True)
         visit_other(tree, "")
     return sites, missing
 
@@ -979,6 +1017,9 @@ def _scan_method(add, rel, cname, fn, modnames, classnames):
             f = _src(b.func)
             if f in ("type", "vars", "globals", "getattr", "super", "locals") or f.endswith("__getattribute__"):
                 return "class", depth
+            if isinstance(b.func, ast.Attribute):          # x.get(k)[…] = v, x.get(k).append(v): still x's object
+                who, d2 = owner(b.func.value)
+                return who, depth + d2 + 1
             return "local", depth
         if not isinstance(b, ast.Name):
             return "local", depth
